@@ -361,10 +361,13 @@ func convertUnionToConstraint[T any, R any](value any) R {
 	}
 
 	if rType.Kind() == reflect.Pointer {
-		if reflect.TypeOf(value).Kind() == reflect.Pointer {
-			return any(value).(R) //nolint:unconvert // generic constraint conversion
+		if r, ok := any(value).(R); ok { //nolint:unconvert // generic constraint conversion
+			return r
 		}
-		return any(new(value)).(R)
+		// Any other value is boxed, also a pointer of another type (a default
+		// such as (*int)(nil) is returned by the engine as it was given).
+		r, _ := any(new(value)).(R)
+		return r
 	}
 
 	// R is non-pointer; dereference if value is a pointer.
